@@ -153,6 +153,7 @@ impl Val for core::num::NonZeroU8 { fn draw<S: Src>(s: &mut S) -> Self { core::n
 impl Val for Option<u8> { fn draw<S: Src>(s: &mut S) -> Self { if s.boolean() { Some(s.u8()) } else { None } } }
 impl Val for crate::m::Nest { fn draw<S: Src>(s: &mut S) -> Self { if s.boolean() { crate::m::Nest::X } else { crate::m::Nest::Y } } }
 impl Val for [u8; 2] { fn draw<S: Src>(s: &mut S) -> Self { [s.u8(), s.u8()] } }
+impl<T> Val for core::marker::PhantomData<T> { fn draw<S: Src>(_s: &mut S) -> Self { core::marker::PhantomData } }
 impl Val for [u8; 0] { fn draw<S: Src>(_s: &mut S) -> Self { [] } }
 impl Val for () { fn draw<S: Src>(_s: &mut S) -> Self { } }
 impl Val for crate::m::K { fn draw<S: Src>(s: &mut S) -> Self { crate::m::K(s.u64()) } }
@@ -211,7 +212,7 @@ impl Src for RandSrc {
 /// structural sameness (f32/f64 by bits) used by value oracles
 pub trait Same { fn same(&self, o: &Self) -> bool; }
 macro_rules! same_eq { ($($t:ty),*) => { $(impl Same for $t { fn same(&self, o: &Self) -> bool { self == o } })* } }
-same_eq!(u8, u16, u32, u64, usize, i8, i16, i32, i64, isize, bool, char, (), &'static str, String, crate::m::K, crate::m::W, Option<u8>, [u8; 4], [u8; 2], &'static u8);
+same_eq!(u8, u16, u32, u64, usize, i8, i16, i32, i64, isize, bool, char, (), &'static str, String, crate::m::K, crate::m::W, Option<u8>, [u8; 4], [u8; 2], &'static u8, &'static [u8; 2]);
 impl Same for f32 { fn same(&self, o: &Self) -> bool { self.to_bits() == o.to_bits() } }
 impl Same for f64 { fn same(&self, o: &Self) -> bool { self.to_bits() == o.to_bits() } }
 impl<const ID: usize> Same for crate::m::Ctr<ID> { fn same(&self, o: &Self) -> bool { self.0 == o.0 } }
